@@ -42,3 +42,13 @@ def short(spec):
     return {'nodes': [n['id'] if n['kind'] == 'named' else n for n in s['nodes']], 'edges': s['edges'],
             'sel': [[c['key'], c['origin'], c['options']] for c in s['sel']], 'incompat': s['incompat'],
             'constraints': s['constraints'], 'conn': s['conn'], 'start': s['start']}
+
+
+def guard(col, fn, *args, **kw):
+    """run one case; a crash of the harness itself makes that case inconclusive, never a verdict"""
+    import traceback
+    try:
+        return fn(*args, **kw)
+    except Exception:  # noqa
+        col.inconclusive.append('case crashed in harness: ' + traceback.format_exc()[-1200:])
+        col.count('harness_case_crashes')
